@@ -220,8 +220,14 @@ def run(ck):
     etable = Table(5, streams=streams, concrete=conc)
     ctx_empty_first = [dict(window=(t(10), t(20)), tests={'temp': ['gross'], 'sal.t': ['valid']}),
                        dict(window=(t(1), t(4)), tests={'temp': ['gross', 'spike'], '9 lives-x': ['flat'], 'sal.t': ['valid']})]
-    setups = {id(table): (contexts, src), id(ztable): (contexts, src), id(one): (ctx_one, src_one), id(etable): (ctx_empty_first, make_config_source(ctx_empty_first))}
-    for fe, table, tname in [(f, tb, tn) for f in ('numpy', 'pandas') for tb, tn in ((table, ''), (ztable, '[all-zero axes]'), (one, '[single row]'), (etable, '[first window empty]'))]:
+    # a frame whose row labels are a permutation of 0..n-1 (sorted by time without reset_index): labels are not positions
+    ltable = Table(5, streams=streams, concrete=conc, index_labels=[3, 0, 4, 1, 2])
+    setups = {id(table): (contexts, src), id(ztable): (contexts, src), id(one): (ctx_one, src_one), id(etable): (ctx_empty_first, make_config_source(ctx_empty_first)),
+              id(ltable): (contexts, src)}
+    for fe, table, tname in [(f, tb, tn) for f in ('numpy', 'pandas') for tb, tn in ((table, ''), (ztable, '[all-zero axes]'), (one, '[single row]'), (etable, '[first window empty]'),
+                                                                                      (ltable, '[permuted row labels]'))]:
+        if table is ltable and fe != 'pandas':
+            continue
         run0 = run_frontend(r, fe, table, setups[id(table)][1])
         if run0.error is not None:
             ck.violate('C19.save', f'{fe}:stream-raises', f'{fe}: the stream raises {run0.error.exc}')
